@@ -21,8 +21,15 @@ def fits_impl(c, cache_size=1024):
     ck = specs.mk_checker(c['checker'], cache_size)
     p = specs.mk_policy(c['policy'])
     q = None if c.get('inq') is None else specs.mk_inquiry(c['inq'])
+    what = specs.py(c['what'])
+    if isinstance(what, dict) and c.get('dict_default') is not None:
+        # a dictionary that is a dict subclass answering every missing key with a default (collections.defaultdict):
+        # still "a dictionary that does not contain the attribute"
+        import collections
+        dflt = specs.py(c['dict_default'][0])
+        what = collections.defaultdict(lambda: dflt, what)
     try:
-        r = ck.fits(p, c['field'], specs.py(c['what']), q)
+        r = ck.fits(p, c['field'], what, q)
     except Exception as e:  # noqa
         return s_exc(e)
     return s_bool(r) if isinstance(r, bool) else '<%r>' % (r,)
